@@ -60,7 +60,8 @@ func (e scriptErr) Error() string { return "E" + strconv.Itoa(e.id) }
 type plan struct {
 	failPos      int // -1 = never
 	headConsumes bool
-	cancelAfter  int // -1 = never; counted from arm()
+	lossy        bool // the failing element is a row that cannot be decoded: the failing call consumes (loses) item failPos
+	cancelAfter  int  // -1 = never; counted from arm()
 }
 
 // faultIter wraps a real datastore iterator.
@@ -105,6 +106,11 @@ func (f *faultIter) Next(ctx context.Context) (*openfgav1.Tuple, error) {
 	f.reads++
 	if !f.failed && f.plan.failPos == f.yielded {
 		f.failed = true
+		if f.plan.lossy {
+			if _, err := f.inner.Next(ctx); err == nil {
+				f.yielded++
+			}
+		}
 		return nil, scriptErr{7}
 	}
 	t, err := f.inner.Next(ctx)
@@ -124,6 +130,11 @@ func (f *faultIter) Head(ctx context.Context) (*openfgav1.Tuple, error) {
 	if !f.failed && f.plan.failPos == f.yielded {
 		if f.plan.headConsumes {
 			f.failed = true
+			if f.plan.lossy {
+				if _, err := f.inner.Next(ctx); err == nil {
+					f.yielded++
+				}
+			}
 		}
 		return nil, scriptErr{7}
 	}
@@ -398,7 +409,7 @@ type event struct {
 	f                         int
 	ops                       string
 	fail, cancelAfter         int
-	hc                        bool
+	hc, lossy                 bool
 }
 
 func parseEvents(s string) []event {
@@ -418,7 +429,8 @@ func parseEvents(s string) []event {
 			if p[2] != "-" {
 				ev.fail, _ = strconv.Atoi(p[2])
 			}
-			ev.hc = p[3] == "1"
+			ev.hc = p[3] == "1" || p[3] == "2"
+			ev.lossy = p[3] == "2"
 			if p[4] != "-" {
 				ev.cancelAfter, _ = strconv.Atoi(p[4])
 			}
@@ -473,7 +485,7 @@ func execHist(f []string, wait bool) string {
 		switch ev.kind {
 		case "R":
 			w.sds.mu.Lock()
-			w.sds.nextPlan = plan{failPos: ev.fail, headConsumes: ev.hc, cancelAfter: ev.cancelAfter}
+			w.sds.nextPlan = plan{failPos: ev.fail, headConsumes: ev.hc, lossy: ev.lossy, cancelAfter: ev.cancelAfter}
 			before := w.sds.made
 			w.sds.last = nil
 			w.sds.mu.Unlock()
